@@ -259,9 +259,14 @@ def run(chk):
     chk.cov["traces_validated_against_impl"] = stats["model_equal"]
     chk.cov["distribution"] = {"operations": dict(ops), "stats": dict(stats), "programs": per_prog, "go_violation_keys": dict(seen_keys)}
     chk.cov["partial_or_refuted"] = [
-        "prim_mono covers add_node, add_edge, merge_node_status, closure, weak_assign_flat, merge (both arguments); the 40 cases of "
-        "transferFunction and EscapeGraph.Call are NOT proved monotone - tied by the collected self-check and weakened re-application",
-        "known finding mono-fresh-tmp-node: invokeMethodDirectly allocates a fresh node per application (transfer function not a function of the graph)"]
+        "proved in full: lessEqual_spec, matches_spec, merge_spec (= closure(union, max), order-free), merge_idem/comm/assoc/ub/lub, "
+        "prim_mono for add_node, add_edge, merge_node_status, weak_assign (flat), merge (both arguments), closure fuel bound, "
+        "wl_order_irrelevant + block_fixpoint_order_free + wl_terminates (height certificate)",
+        "NOT proved (tied only): monotonicity of the 40 cases of transferFunction and of EscapeGraph.Call; WeakAssign/LoadField/StoreField "
+        "with subnode recursion (depend on the node group's mutable subnode/load tables); termination of the concrete analysis "
+        "(needs a finite node universe)",
+        "known finding mono-fresh-tmp-node: invokeMethodDirectly allocates a fresh node per application (the transfer function is not a "
+        "function of the graph; non-termination inside loops, corpus/regress/c15-json-loop)"]
     chk.assumptions += [
         "graphs inside the invariant Inv (dom edges = dom status, endpoints present, flags non-empty, status >= intrinsic, closed along "
         "edges): %d captured graphs violated it" % stats["captured_graphs_violating_inv"],
